@@ -3,6 +3,8 @@
  * all outputs and the return code. Outputs must be byte-identical in every configuration.
  *   corpus_driver <seed> <out.ndjson> [quick]                                                  */
 #include "common.h"
+#include "poly_keys.h"
+#include "x25519_nearp.h"
 
 static vrng R; static int quick;
 static const size_t LENS_ALL[] = { 0, 1, 2, 3, 7, 8, 15, 16, 17, 31, 32, 33, 47, 48, 63, 64, 65, 95, 96, 97, 127, 128, 129, 191, 192, 193, 255, 256, 257,
@@ -85,6 +87,15 @@ int main(int argc, char **argv) {
             r = sodium_base642bin(OUT2, 4096, (char *) OUT, strlen((char *) OUT), NULL, &bl, NULL, 1 + 2 * (int) (n % 4)); emit("base642bin", n, 0, r, OUT2, bl);
             sodium_bin2hex((char *) OUT, 8192, IN, n); r = sodium_hex2bin(OUT2, 4096, (char *) OUT, 2 * n, NULL, &bl, NULL); emit("hex2bin", n, 0, r, OUT2, bl); } }
     }
+    /* X25519 results just below p, all limbs ones but one (tools/gen_nearp.py): every backend's final canonicalisation */
+    { unsigned char kk[32], uu[32]; static const char *kfix = "58083dd261ad91eff952322ec824c682ffffffffffffffffffffffffffffff5f";
+      for (int i = 0; i < 32; i++) { unsigned v; sscanf(kfix + 2 * i, "%2x", &v); kk[i] = (unsigned char) v; }
+      for (size_t c = 0; NEARP[c]; c++) { for (int i = 0; i < 32; i++) { unsigned v; sscanf(NEARP[c] + 2 * i, "%2x", &v); uu[i] = (unsigned char) v; }
+        int r = crypto_scalarmult(OUT, kk, uu); emit("scalarmult_nearp", c, 0, r, OUT, 32); } }
+    /* Poly1305 keys whose powers r^2 / r^4 have a limb at a boundary (tools/polykeys.c) */
+    { unsigned char kk[32]; static const size_t L[3] = { 17, 96, 200 };
+      for (size_t c = 0; POLYKEYS[c]; c++) { for (int b = 0; b < 16; b++) { unsigned v; sscanf(POLYKEYS[c] + 2 * b, "%2x", &v); kk[b] = (unsigned char) v; } memset(kk + 16, (int) c, 16); fresh("onetimeauth_polykey", c, 0);
+        for (int j = 0; j < 3; j++) { int r = crypto_onetimeauth(OUT, IN, L[j], kk); emit("onetimeauth_polykey", c, j, r, OUT, 16); } } }
     /* fixed-size primitives, many seeded cases */
     for (size_t c = 0; c < (quick ? 12 : 60); c++) {
         unsigned char *k = IN2, *np = IN2 + 64; int r;
